@@ -7,6 +7,9 @@ mod maybe_retryable;
 mod ws_connect;
 
 use self::handle_remote::handle_remote;
+/// Verification hook (compiled only with `--cfg penguin_rs_verif`): the HTTP proxy connection handler.
+#[cfg(all(penguin_rs_verif, feature = "http-proxy"))]
+pub use self::handle_remote::verif_http_proxy_on_stream;
 use self::maybe_retryable::MaybeRetryableError;
 use crate::arg::ClientArgs;
 use crate::config;
